@@ -172,19 +172,15 @@ bool Component::ComponentImpl::performTestWithHistory(History &history, const Co
 bool Component::doAddComponent(const ComponentPtr &component)
 {
     auto newParent = shared_from_this();
-    bool hasParent = component->hasParent();
-    if (hasParent) {
-        if (hasAncestor(component)) {
-            return false;
-        }
+    // A component can be neither its own child nor a child of one of its descendants.
+    if ((newParent == component) || hasAncestor(component)) {
+        return false;
+    }
+    if (component->hasParent()) {
         auto parent = component->parent();
         if (parent != newParent) {
             removeComponentFromEntity(parent, component);
         }
-    } else if (hasAncestor(component)) {
-        return false;
-    } else if (newParent == component) {
-        return false;
     }
     component->pFunc()->setParent(newParent);
 
